@@ -36,7 +36,8 @@ NodeVerdict ==
   LET cov == T.cov  val == T.val  ty == T.ty  obf == T.obf IN
   CASE obf = "encoding.base64" ->
          LET inner == IF ty = "" THEN B64Clean(cov) ELSE Quoted(cov) IN
-         IF B64Text(inner) /\ inner # <<>> THEN <<"b64", val = B64Decode(inner)>> ELSE <<"n/a", TRUE>>
+         \* (a bare blob is reported only when it passes the acceptance rule: length, distinct characters, not all hex digits, not all letters, few slashes)
+         IF B64Text(inner) /\ inner # <<>> THEN <<"b64", val = B64Decode(inner) /\ (ty # "" \/ BareB64Accept(inner))>> ELSE <<"n/a", TRUE>>
     [] obf = "decoded.hexadecimal" -> <<"hex", HexRun(cov) /\ val = Unhex(cov)>>
     [] obf = "encoding.hexidecimal" -> LET inner == Quoted(cov) IN <<"hex", HexRun(inner) /\ val = Unhex(inner)>>
     [] StartsWith(T.obfb, XORPFX) /\ AllDigits(SubSeq(T.obfb, 11, Len(T.obfb))) ->
